@@ -13,114 +13,353 @@ Proof.
     + rewrite perm_swap. constructor. apply IH; auto.
 Qed.
 
-Lemma step_perm : forall s e,
-  Permutation (published (step s e) ++ pending (step s e))
-              (published s ++ pending s ++ expected [e]).
+Lemma remove_nth_length : forall (A : Type) (l : list A) k x,
+  nth_error l k = Some x -> S (length (remove_nth k l)) = length l.
 Proof.
-  intros s e. destruct e as [d t dec cs|k|d|d]; cbn [step expected].
-  - destruct (resource_of t) as [r|], dec as [c|]; cbn [published pending];
-      rewrite ?app_nil_r; auto.
-  - destruct (nth_error (pending s) k) as [x|] eqn:E; cbn [published pending];
-      rewrite ?app_nil_r; auto.
-    rewrite <- app_assoc. apply Permutation_app_head. cbn [app].
-    apply remove_nth_perm; auto.
-  - rewrite app_nil_r. reflexivity.
-  - rewrite app_nil_r. reflexivity.
+  intros A l k x H. pose proof (Permutation_length (remove_nth_perm A l k x H)) as P.
+  exact P.
 Qed.
 
+Lemma remove_nth_In : forall (A : Type) (l : list A) k y, In y (remove_nth k l) -> In y l.
+Proof.
+  induction l as [|z l IH]; intros k y H; [destruct k; exact H|].
+  destruct k as [|k]; cbn in H.
+  - now right.
+  - destruct H as [H|H]; [now left|right; eapply IH; eauto].
+Qed.
+
+(* a permutation of the concatenation with one element moved from the middle list to the end *)
+Lemma perm_move : forall (A : Type) (a b c : list A) k x, nth_error b k = Some x ->
+  Permutation (a ++ remove_nth k b ++ c ++ [x]) (a ++ b ++ c).
+Proof.
+  intros A a b c k x H. apply Permutation_app_head.
+  rewrite app_assoc. rewrite <- Permutation_cons_append. rewrite <- (remove_nth_perm A b k x H) at 2.
+  reflexivity.
+Qed.
+
+Section Proofs.
+Variable dec : mtype -> list N -> option content.
+Variable is_conn : content -> bool.
+
+Notation step := (step dec is_conn).
+Notation run := (run dec is_conn).
+Notation expected := (expected dec).
+Notation drain := (drain).
+Notation conn_reading := (conn_reading is_conn).
+
+(* all readings of a state, as one list *)
+Definition allr (s : state) : list reading := published s ++ inflight s.
+
+Lemma step_perm : forall s e,
+  Permutation (allr (step s e)) (allr s ++ expected [e]).
+Proof.
+  intros s e. unfold allr, inflight.
+  destruct e as [d t bs now|d t got m now|k|k ok|k|d ok|d|d]; cbn [Publish.step Publish.expected].
+  - destruct (resource_of t) as [r|], (dec t bs) as [c|]; rewrite ?app_nil_r; auto.
+    destruct (conn_reading (d, r, c)); cbn [published starting parked pending].
+    + rewrite <- ?app_assoc. do 2 apply Permutation_app_head.
+      rewrite (app_assoc (parked s)). apply Permutation_app_comm.
+    + rewrite <- ?app_assoc. reflexivity.
+  - now rewrite app_nil_r.
+  - rewrite app_nil_r.
+    destruct (nth_error (starting s) k) as [x|] eqn:E; auto.
+    destruct (isup s (fst (fst x))); cbn [published starting parked pending];
+      apply Permutation_app_head.
+    + rewrite (app_assoc (parked s)).
+      apply (perm_move _ [] (starting s) (parked s ++ pending s) k x E).
+    + rewrite <- (app_assoc (parked s)).
+      rewrite (Permutation_app_comm [x] (pending s)).
+      rewrite (app_assoc (parked s)).
+      apply (perm_move _ [] (starting s) (parked s ++ pending s) k x E).
+  - rewrite app_nil_r.
+    destruct (nth_error (parked s) k) as [x|] eqn:E; auto.
+    cbn [published starting parked pending]. apply Permutation_app_head.
+    apply (perm_move _ (starting s) (parked s) (pending s) k x E).
+  - rewrite app_nil_r.
+    destruct (nth_error (pending s) k) as [x|] eqn:E; auto.
+    cbn [published starting parked pending].
+    rewrite <- app_assoc. apply Permutation_app_head. cbn [app].
+    rewrite !(app_assoc (starting s)). rewrite Permutation_middle.
+    apply Permutation_app_head. apply (remove_nth_perm _ _ _ _ E).
+  - now rewrite app_nil_r.
+  - now rewrite app_nil_r.
+  - now rewrite app_nil_r.
+Qed.
 Lemma expected_app : forall evs1 evs2, expected (evs1 ++ evs2) = expected evs1 ++ expected evs2.
 Proof.
-  induction evs1 as [|e evs1 IH]; intros; cbn [app expected]; auto.
-  destruct e as [d t [c|] cs|k|d|d]; auto.
-  destruct (resource_of t); auto. cbn [app]. now rewrite IH.
+  induction evs1 as [|e evs1 IH]; intros; cbn [app Publish.expected]; auto.
+  destruct e as [d t bs now|d t got m now|k|k ok|k|d ok|d|d]; auto.
+  destruct (resource_of t), (dec t bs); auto. cbn [app]. now rewrite IH.
 Qed.
 
 Lemma run_perm : forall evs s,
-  Permutation (published (run s evs) ++ pending (run s evs))
-              (published s ++ pending s ++ expected evs).
+  Permutation (allr (run s evs)) (allr s ++ expected evs).
 Proof.
-  induction evs as [|e evs IH]; intros s; cbn [run fold_left].
-  - cbn [expected]. now rewrite app_nil_r.
+  induction evs as [|e evs IH]; intros s; cbn [Publish.run fold_left].
+  - cbn [Publish.expected]. now rewrite app_nil_r.
   - fold (run (step s e) evs). rewrite IH.
     change (e :: evs) with ([e] ++ evs). rewrite expected_app.
-    rewrite !app_assoc. apply Permutation_app_tail.
-    rewrite <- app_assoc. apply step_perm.
+    rewrite app_assoc. apply Permutation_app_tail. apply step_perm.
 Qed.
 
-Lemma published_multiset_eq_received : forall evs,
-  let s := run init evs in
-  Permutation (published s ++ pending s) (expected evs) /\
-  (pending s = [] -> Permutation (published s) (expected evs)).
+(* whatever the devices' operating-state flags were at the start and however they change *)
+Lemma published_multiset_eq_received : forall up0 evs,
+  let s := run (init_up up0) evs in
+  Permutation (published s ++ inflight s) (expected evs) /\
+  (inflight s = [] -> Permutation (published s) (expected evs)).
 Proof.
-  intros evs s. pose proof (run_perm evs init) as H. cbn [published pending init app] in H.
-  fold s in H. split; auto. intros E. rewrite E, app_nil_r in H. exact H.
+  intros up0 evs s. pose proof (run_perm evs (init_up up0)) as H.
+  unfold allr at 2 in H. cbn [published inflight starting parked pending init_up app] in H.
+  fold s in H. split; auto. intros E. unfold allr in H. rewrite E, app_nil_r in H. exact H.
 Qed.
 
 Lemma run_app : forall evs1 evs2 s, run s (evs1 ++ evs2) = run (run s evs1) evs2.
-Proof. intros. unfold run. apply fold_left_app. Qed.
+Proof. intros. unfold Publish.run. apply fold_left_app. Qed.
 
-Lemma drain_empties : forall n s, length (pending s) = n ->
-  pending (run s (repeat (PublisherRun 0) n)) = [].
+Lemma run_cons : forall e evs s, run s (e :: evs) = run (step s e) evs.
+Proof. reflexivity. Qed.
+
+(* the three phases of [drain] *)
+Lemma phase_start : forall n s, length (starting s) <= n ->
+  let s' := run s (repeat (OnConnectStart 0) n) in
+  starting s' = [] /\ length (inflight s') = length (inflight s).
 Proof.
-  induction n as [|n IH]; intros s H; cbn [repeat run fold_left].
-  - destruct (pending s); auto; discriminate.
-  - fold (run (step s (PublisherRun 0)) (repeat (PublisherRun 0) n)). apply IH.
-    cbn [step]. destruct (pending s) as [|x l] eqn:E; try discriminate.
-    cbn [nth_error pending remove_nth]. cbn in H. lia.
+  induction n as [|n IH]; intros s H; cbn [repeat].
+  - cbn. destruct (starting s); cbn in H; [auto|lia].
+  - rewrite run_cons. destruct (starting s) as [|x l] eqn:E.
+    + assert (S0 : step s (OnConnectStart 0) = s) by (cbn [Publish.step]; now rewrite E).
+      rewrite S0. apply IH. rewrite E. cbn. lia.
+    + cbn zeta. destruct (IH (step s (OnConnectStart 0))) as [A B].
+      { cbn [Publish.step]. rewrite E. cbn [nth_error remove_nth].
+        destruct (isup s (fst (fst x))); cbn [starting]; cbn in H; lia. }
+      split; [exact A|]. rewrite B. unfold inflight. cbn [Publish.step]. rewrite E.
+      cbn [nth_error remove_nth].
+      destruct (isup s (fst (fst x))); cbn [starting parked pending]; rewrite !app_length; cbn; lia.
 Qed.
 
-Lemma all_publishers_can_run : forall evs,
-  let s := run init (evs ++ drain (run init evs)) in
-  pending s = [] /\ Permutation (published s) (expected evs).
+Lemma phase_sdk : forall ok n s, starting s = [] -> length (parked s) <= n ->
+  let s' := run s (repeat (SdkReturn 0 ok) n) in
+  starting s' = [] /\ parked s' = [] /\ length (inflight s') = length (inflight s).
 Proof.
-  intros evs s. unfold s. rewrite run_app.
-  assert (P : pending (run (run init evs) (drain (run init evs))) = []).
-  { apply drain_empties. reflexivity. }
+  induction n as [|n IH]; intros s S0 H; cbn [repeat].
+  - cbn. destruct (parked s); cbn in H; [auto|lia].
+  - rewrite run_cons. destruct (parked s) as [|x l] eqn:E.
+    + assert (S1 : step s (SdkReturn 0 ok) = s) by (cbn [Publish.step]; now rewrite E).
+      rewrite S1. apply IH; auto. rewrite E. cbn. lia.
+    + cbn zeta. destruct (IH (step s (SdkReturn 0 ok))) as [A [B C]].
+      { cbn [Publish.step]. rewrite E. exact S0. }
+      { cbn [Publish.step]. rewrite E. cbn [nth_error remove_nth parked]. cbn in H. lia. }
+      split; [exact A|split; [exact B|]]. rewrite C. unfold inflight. cbn [Publish.step]. rewrite E.
+      cbn [nth_error remove_nth starting parked pending]. rewrite !app_length. cbn. lia.
+Qed.
+
+Lemma phase_publish : forall n s, starting s = [] -> parked s = [] -> length (pending s) <= n ->
+  inflight (run s (repeat (PublisherRun 0) n)) = [].
+Proof.
+  induction n as [|n IH]; intros s S0 P0 H; cbn [repeat].
+  - cbn. unfold inflight. rewrite S0, P0. destruct (pending s); cbn in H; [auto|lia].
+  - rewrite run_cons. destruct (pending s) as [|x l] eqn:E.
+    + assert (S1 : step s (PublisherRun 0) = s) by (cbn [Publish.step]; now rewrite E).
+      rewrite S1. apply IH; auto. rewrite E. cbn. lia.
+    + apply IH; cbn [Publish.step]; rewrite E; cbn [nth_error remove_nth starting parked pending]; auto.
+      cbn in H. lia.
+Qed.
+
+Lemma no_recv_expected_nil : forall evs,
+  Forall (fun e => match e with Recv _ _ _ _ => False | _ => True end) evs -> expected evs = [].
+Proof.
+  induction 1 as [|e evs H _ IH]; auto.
+  destruct e; cbn [Publish.expected]; auto; contradiction.
+Qed.
+
+Lemma drain_no_recv : forall ok s, expected (drain ok s) = [].
+Proof.
+  intros. apply no_recv_expected_nil. unfold Publish.drain.
+  rewrite !Forall_app. repeat split; apply Forall_forall; intros e H; apply repeat_spec in H; now subst.
+Qed.
+
+Lemma drain_empties : forall ok s, inflight (run s (drain ok s)) = [].
+Proof.
+  intros ok s. unfold Publish.drain. set (n := length (inflight s)).
+  rewrite !run_app.
+  assert (L : length (starting s) <= n) by (unfold n, inflight; rewrite !app_length; lia).
+  destruct (phase_start n s L) as [A B]. cbn zeta in A, B.
+  set (s1 := run s (repeat (OnConnectStart 0) n)) in *.
+  assert (L1 : length (parked s1) <= n).
+  { unfold n. rewrite <- B. unfold inflight. rewrite !app_length. lia. }
+  destruct (phase_sdk ok n s1 A L1) as [A2 [B2 C2]]. cbn zeta in A2, B2, C2.
+  set (s2 := run s1 (repeat (SdkReturn 0 ok) n)) in *.
+  apply phase_publish; auto.
+  unfold n. rewrite <- B, <- C2. unfold inflight. rewrite !app_length. lia.
+Qed.
+
+Lemma all_publishers_can_run : forall up0 ok evs,
+  let s := run (init_up up0) (evs ++ drain ok (run (init_up up0) evs)) in
+  inflight s = [] /\ Permutation (published s) (expected evs).
+Proof.
+  intros up0 ok evs s.
+  assert (P : inflight s = []) by (unfold s; rewrite run_app; apply drain_empties).
   split; auto.
-  pose proof (run_perm (drain (run init evs)) (run init evs)) as H.
-  rewrite P, app_nil_r in H.
-  assert (X : expected (drain (run init evs)) = []).
-  { unfold drain. induction (length (pending (run init evs))); cbn; auto. }
-  rewrite X, app_nil_r in H. rewrite H.
-  destruct (published_multiset_eq_received evs) as [H1 _]. exact H1.
+  destruct (published_multiset_eq_received up0 (evs ++ drain ok (run (init_up up0) evs))) as [_ H].
+  fold s in H. rewrite (H P). rewrite expected_app, drain_no_recv, app_nil_r. reflexivity.
 Qed.
 
 (* a message whose decoding fails changes nothing: neither its own reading nor anything later *)
-Lemma bad_decode_dropped_only : forall evs1 evs2 d t cs,
-  run init (evs1 ++ Recv d t None cs :: evs2) = run init (evs1 ++ evs2) /\
-  expected (evs1 ++ Recv d t None cs :: evs2) = expected (evs1 ++ evs2).
+Lemma bad_decode_dropped_only : forall s evs1 evs2 d t bs now, dec t bs = None ->
+  run s (evs1 ++ Recv d t bs now :: evs2) = run s (evs1 ++ evs2) /\
+  expected (evs1 ++ Recv d t bs now :: evs2) = expected (evs1 ++ evs2).
+Proof.
+  intros s evs1 evs2 d t bs now H. split.
+  - rewrite !run_app. rewrite run_cons. cbn [Publish.step]. rewrite H.
+    destruct (resource_of t); reflexivity.
+  - rewrite !expected_app. cbn [Publish.expected]. rewrite H. destruct (resource_of t); reflexivity.
+Qed.
+
+(* a message that was not received completely publishes nothing, whatever the bytes that did
+   arrive would decode to *)
+Lemma incomplete_message_publishes_nothing : forall s evs1 evs2 d t got missing now,
+  run s (evs1 ++ RecvCut d t got missing now :: evs2) = run s (evs1 ++ evs2) /\
+  expected (evs1 ++ RecvCut d t got missing now :: evs2) = expected (evs1 ++ evs2).
 Proof.
   intros. split.
-  - rewrite !run_app. cbn [run fold_left step]. destruct (resource_of t); reflexivity.
+  - rewrite !run_app. reflexivity.
   - rewrite !expected_app. reflexivity.
 Qed.
 
-(* nothing is attributed to a device or resource other than the receiving ones *)
-Lemma published_attribution : forall evs d r c,
-  In (d, r, c) (published (run init evs)) ->
-  exists t cs, In (Recv d t (Some c) cs) evs /\ resource_of t = Some r.
+Lemma expected_In : forall evs d r c, In (d, r, c) (expected evs) ->
+  exists t bs now, In (Recv d t bs now) evs /\ resource_of t = Some r /\ dec t bs = Some c.
 Proof.
-  intros evs d r c H.
-  destruct (published_multiset_eq_received evs) as [P _].
-  assert (I : In (d, r, c) (expected evs)).
-  { eapply Permutation_in; [exact P|]. apply in_or_app. now left. }
-  clear -I. induction evs as [|e evs IH]; cbn [expected] in I; [contradiction|].
-  destruct e as [d' t' [c'|] cs'|k|d'|d']; try (destruct (IH I) as [t [cs [A B]]]; exists t, cs; split; [now right|auto]).
-  destruct (resource_of t') as [r'|] eqn:E.
-  - destruct I as [I|I].
-    + injection I as -> -> ->. exists t', cs'. split; [now left|auto].
-    + destruct (IH I) as [t [cs [A B]]]. exists t, cs. split; [now right|auto].
-  - destruct (IH I) as [t [cs [A B]]]. exists t, cs. split; [now right|auto].
+  induction evs as [|e evs IH]; intros d r c I; cbn [Publish.expected] in I; [contradiction|].
+  assert (K : In (d, r, c) (expected evs) ->
+              exists t bs now, In (Recv d t bs now) (e :: evs) /\ resource_of t = Some r /\ dec t bs = Some c).
+  { intros I'. destruct (IH _ _ _ I') as [t [bs [now [A B]]]]. exists t, bs, now. split; [now right|auto]. }
+  destruct e as [d' t' bs' now'|d' t' got m now'|k|k ok|k|d' ok|d'|d']; auto.
+  destruct (resource_of t') as [r'|] eqn:E; auto.
+  destruct (dec t' bs') as [c'|] eqn:E2; auto.
+  destruct I as [I|I]; auto.
+  injection I as -> -> ->. exists t', bs', now'. split; [now left|auto].
 Qed.
 
-(* commands, keep-alives and messages of other types never add a reading *)
+(* device, resource and content of every published reading are those of a completely received
+   message: the content is the decoding of that message's bytes *)
+Lemma published_attribution : forall up0 evs d r c,
+  In (d, r, c) (published (run (init_up up0) evs)) ->
+  exists t bs now, In (Recv d t bs now) evs /\ resource_of t = Some r /\ dec t bs = Some c.
+Proof.
+  intros up0 evs d r c H.
+  destruct (published_multiset_eq_received up0 evs) as [P _].
+  apply expected_In. eapply Permutation_in; [exact P|]. apply in_or_app. now left.
+Qed.
+
+(* commands, keep-alives, operating-state changes and messages of other types never add, drop or
+   move a reading *)
+Definition readings (s : state) := (starting s, parked s, pending s, published s).
+
 Lemma others_publish_nothing : forall s e,
   match e with
-  | Command _ | KeepAliveAck _ => step s e = s
+  | Command _ | KeepAliveAck _ | RecvCut _ _ _ _ _ => step s e = s
+  | MarkDown _ _ => readings (step s e) = readings s
   | Recv _ t _ _ => resource_of t = None -> step s e = s
   | _ => True
   end.
 Proof.
-  intros s e. destruct e as [d t dec cs|k|d|d]; auto.
-  intros H. cbn [step]. now rewrite H.
+  intros s e. destruct e as [d t bs now|d t got m now|k|k ok|k|d ok|d|d]; auto.
+  intros H. cbn [Publish.step]. now rewrite H.
 Qed.
+
+(* only publishers of connection events are ever held up by the operating state *)
+Definition conn_only (s : state) : Prop :=
+  Forall (fun x => conn_reading x = true) (starting s ++ parked s).
+
+Lemma step_conn_only : forall s e, conn_only s -> conn_only (step s e).
+Proof.
+  unfold conn_only. intros s e H.
+  destruct e as [d t bs now|d t got m now|k|k ok|k|d ok|d|d]; cbn [Publish.step]; auto.
+  - destruct (resource_of t) as [r|], (dec t bs) as [c|]; auto.
+    destruct (conn_reading (d, r, c)) eqn:E; cbn [starting parked]; auto.
+    rewrite <- app_assoc. rewrite Forall_app in *. destruct H as [H1 H2]. split; auto.
+    cbn [app]. constructor; auto.
+  - destruct (nth_error (starting s) k) as [x|] eqn:E; auto.
+    rewrite Forall_app in H. destruct H as [H1 H2].
+    assert (R : Forall (fun x => conn_reading x = true) (remove_nth k (starting s))).
+    { rewrite Forall_forall in *. intros y Hy. apply H1. eapply remove_nth_In; eauto. }
+    destruct (isup s (fst (fst x))); cbn [starting parked]; rewrite !Forall_app; repeat split; auto.
+    constructor; auto. rewrite Forall_forall in H1. apply H1. eapply nth_error_In; eauto.
+  - destruct (nth_error (parked s) k) as [x|] eqn:E; auto.
+    cbn [starting parked]. rewrite Forall_app in *. destruct H as [H1 H2]. split; auto.
+    rewrite Forall_forall in *. intros y Hy. apply H2. eapply remove_nth_In; eauto.
+  - destruct (nth_error (pending s) k) as [x|] eqn:E; auto.
+Qed.
+
+Lemma run_conn_only : forall evs s, conn_only s -> conn_only (run s evs).
+Proof.
+  induction evs as [|e evs IH]; intros s H; auto.
+  rewrite run_cons. apply IH. now apply step_conn_only.
+Qed.
+
+Lemma publish_only : forall n s, length (pending s) <= n ->
+  let s' := run s (repeat (PublisherRun 0) n) in
+  pending s' = [] /\ starting s' = starting s /\ parked s' = parked s.
+Proof.
+  induction n as [|n IH]; intros s H; cbn [repeat].
+  - cbn. destruct (pending s); cbn in H; [auto|lia].
+  - rewrite run_cons. destruct (pending s) as [|x l] eqn:E.
+    + assert (S1 : step s (PublisherRun 0) = s) by (cbn [Publish.step]; now rewrite E).
+      rewrite S1. apply IH; auto. rewrite E. cbn. lia.
+    + cbn zeta. destruct (IH (step s (PublisherRun 0))) as [A [B C]].
+      { cbn [Publish.step]. rewrite E. cbn [nth_error remove_nth pending]. cbn in H. lia. }
+      split; [exact A|]. rewrite B, C. cbn [Publish.step]. rewrite E. split; reflexivity.
+Qed.
+
+(* without any SDK call returning and whatever the flags say, letting the pending publishers
+   run publishes everything except connection events: what is left waiting are connection
+   events only *)
+Lemma reports_published_without_sdk : forall up0 evs,
+  let s0 := run (init_up up0) evs in
+  let s := run s0 (repeat (PublisherRun 0) (length (pending s0))) in
+  pending s = [] /\
+  Permutation (published s ++ starting s ++ parked s) (expected evs) /\
+  Forall (fun x => conn_reading x = true) (starting s ++ parked s).
+Proof.
+  intros up0 evs s0 s.
+  destruct (publish_only (length (pending s0)) s0 (le_n _)) as [A [B C]]. fold s in A, B, C.
+  split; [exact A|]. split.
+  - pose proof (run_perm (evs ++ repeat (PublisherRun 0) (length (pending s0))) (init_up up0)) as H.
+    rewrite run_app in H. fold s0 in H. fold s in H.
+    rewrite expected_app in H.
+    rewrite (no_recv_expected_nil (repeat _ _)) in H.
+    2:{ apply Forall_forall. intros e He. apply repeat_spec in He. now subst. }
+    unfold allr, inflight in H. rewrite A in H. cbn [init_up published starting parked pending app] in H.
+    rewrite !app_nil_r in H. exact H.
+  - assert (K : conn_only s).
+    { unfold s, s0. rewrite <- run_app. apply run_conn_only. unfold conn_only. cbn. constructor. }
+    exact K.
+Qed.
+
+(* a report or an ordinary reader event goes straight to the channel send, whatever the
+   operating-state flags are: its publisher can complete at once *)
+Lemma report_not_gated : forall s d t bs now r c,
+  resource_of t = Some r -> dec t bs = Some c -> conn_reading (d, r, c) = false ->
+  let s1 := step s (Recv d t bs now) in
+  pending s1 = pending s ++ [(d, r, c)] /\
+  published (step s1 (PublisherRun (length (pending s)))) = published s ++ [(d, r, c)].
+Proof.
+  intros s d t bs now r c R D C s1. unfold s1. cbn [Publish.step]. rewrite R, D, C.
+  cbn [pending]. split; auto.
+  rewrite nth_error_app2 by lia. rewrite Nat.sub_diag. reflexivity.
+Qed.
+
+(* receiving the same messages at other times changes nothing *)
+Lemma step_retime : forall f s e, step s (retime f e) = step s e.
+Proof. intros f s e. destruct e; reflexivity. Qed.
+
+Lemma run_retimed : forall f evs s,
+  run s (map (retime f) evs) = run s evs /\ expected (map (retime f) evs) = expected evs.
+Proof.
+  intros f evs. induction evs as [|e evs IH]; intros s; [split; reflexivity|].
+  cbn [map]. rewrite !run_cons. rewrite step_retime. destruct (IH (step s e)) as [A B]. split; auto.
+  destruct e as [d t bs now|d t got m now|k|k ok|k|d ok|d|d]; cbn [retime Publish.expected]; auto.
+  destruct (resource_of t), (dec t bs); auto. now rewrite B.
+Qed.
+
+End Proofs.
